@@ -516,7 +516,6 @@ func (bkt *Bucket) incr(ki *KeyInfo, value int) int {
 			if len(tofree.Body) > 22 {
 				logger.Warnf("incr with large value %s...", string(tofree.Body[:22]))
 				errFlag = true
-				return 0
 			}
 			s := string(tofree.Body)
 			v, err := strconv.Atoi(s)
@@ -536,6 +535,11 @@ func (bkt *Bucket) incr(ki *KeyInfo, value int) int {
 		}
 		cmem.DBRL.SetData.SubCount(1)
 		return 0
+	}
+	if tofree != nil {
+		// the old value has been parsed: release it
+		cmem.DBRL.GetData.SubSizeAndCount(tofree.CArray.Cap)
+		tofree.CArray.Free()
 	}
 
 	payload := &Payload{}
